@@ -834,6 +834,7 @@ impl SvgElement {
             || self.has_attr("inside")
             || self.has_foreign_position()
             || self.has_pending_offset()
+            || self.is_connector()
     }
 
     /// True while a `dx` / `dy` offset still waits to be folded into the position (on text
